@@ -45,12 +45,15 @@ TYPED = False
 IPVFUTURE = False     # bases with an IPvFuture host (known finding bracketed-non-ipv6) only where asked for
 
 
-def rnd_base(rnd, encoded_p=0.0):
+def rnd_base(rnd, encoded_p=0.0, surrogate_p=0.0):
     r = rnd.random()
     if r < 0.5:
         s = rnd.choice(BASES)
     else:
         s = grid.sample(rnd, ipvfuture=IPVFUTURE)
+    if surrogate_p and rnd.random() < surrogate_p:     # a lone surrogate somewhere in the URL text itself
+        i = rnd.randrange(len(s) + 1)
+        s = s[:i] + rnd.choice(SURR) + s[i:]
     return {"op": "ctor", "s": T(s), "encoded": rnd.random() < encoded_p}
 
 
@@ -190,7 +193,7 @@ def gen(params):
         if rnd.random() < params.get("build_p", 0.3):
             prog = [rnd_build(rnd, surrogate_p=sp)]
         else:
-            prog = [rnd_base(rnd, params.get("encoded_p", 0.0))]
+            prog = [rnd_base(rnd, params.get("encoded_p", 0.0), params.get("surrogate_base_p", 0.0))]
         for _ in range(rnd.choice(params.get("depths", (1, 1, 2, 3)))):
             prog.append(rnd_step(rnd, ops, surrogate_p=sp, typed=params.get("typed", False),
                                  encoded_p=params.get("encoded_p", 0.0)))
